@@ -2,22 +2,44 @@
     Proved on the model (Simp.v, tied to expression_helper.py by exact-tree correspondence):
       (fixpoint)   for ALL trees, every result of the simplifier is a fixpoint of its own rewriting step at the root: applying
                    _expr_simp once more returns an == expression;
+      (idempotent) on well-formed trees (SimpProofs.wf, fragments 1-4: constants, identifiers, memory cells, conditionals,
+                   + * ^ & | -, slices, shifts, ==, parity; the identifier predicate determines is_term, as every name signature does)
+                   the result is a DEEP normal form — every node of it is returned unchanged by the rewriting step — and
+                   simplifying it again returns the IDENTICAL tree, whatever the fuel;
       (order)      the canonical ordering of operands is a permutation of its input whatever the input order (so no operand is
                    lost or duplicated by sorting), and on well-formed trees operand order does not influence the VALUE of the result;
       (fuel)       two successful runs of the model return the same tree whatever their fuel.
-    NOT proved: idempotence below the root (that the operands of the result are themselves left unchanged by a second pass),
+    NOT proved: idempotence outside the well-formed fragment (concatenations, rotates, ==, parity, ill-typed trees),
     that permuted or re-associated operand lists give the IDENTICAL tree (needs injectivity of key_expr on the operands, which
     fails across widths), and independence from PYTHONHASHSEED (a property of the implementation's dict/set iteration):
     these are decided by runs of the implementation (harness/p_c13.py: second pass, all permutations / re-associations of up to
     5 operands, several hash seeds) against the model. *)
 From Coq Require Import ZArith List Bool String Permutation.
-From Mx Require Import Expr Simp SimpProofs SimpFix MachineProofs.
+From Mx Require Import Expr Simp SimpProofs SimpFix SimpIdem MachineProofs.
 Import ListNotations.
 Open Scope Z_scope.
 
 Theorem C13_result_is_fixpoint_of_the_step : forall fuel e r, simp fuel e = Ok r -> exists r1, simp1 r = Ok r1 /\ expr_eqb r1 r = true.
 Proof. exact simp_result_is_step_fixpoint. Qed.
 Print Assumptions C13_result_is_fixpoint_of_the_step.
+
+(** idempotence on well-formed trees: the result is a deep normal form, and a second pass returns the identical tree *)
+Theorem C13_idempotent_on_well_formed_trees : forall (Q : string -> Z -> bool -> bool -> bool),
+  (forall n w r t t', Q n w r t = true -> Q n w r t' = true -> t = t') ->
+  forall fuel e r, wf Q e = true -> simp fuel e = Ok r -> forall f, simp (S f) r = Ok r.
+Proof. exact simp_idempotent. Qed.
+Print Assumptions C13_idempotent_on_well_formed_trees.
+
+Theorem C13_result_is_a_deep_normal_form : forall (Q : string -> Z -> bool -> bool -> bool),
+  (forall n w r t t', Q n w r t = true -> Q n w r t' = true -> t = t') ->
+  forall fuel e r, wf Q e = true -> simp fuel e = Ok r -> DF r.
+Proof. exact simp_result_is_normal_form. Qed.
+Print Assumptions C13_result_is_a_deep_normal_form.
+
+(** what a deep normal form is: the node itself and, recursively, every operand is a fixpoint of the rewriting step *)
+Theorem C13_deep_normal_form_unfolds : forall e, DF e <-> simp1 e = Ok e /\ kids e.
+Proof. exact DF_unfold. Qed.
+Print Assumptions C13_deep_normal_form_unfolds.
 
 Theorem C13_canonical_order_is_a_permutation : forall l, Permutation (canonize_expr_list l) l.
 Proof. exact (sort_by_perm key_expr). Qed.
@@ -37,3 +59,11 @@ Print Assumptions C13_successful_runs_agree.
 Example C13_nonvacuous : simp 10 (EOp "+" [EId "b" 8 false false; EId "a" 8 false false]) = Ok (EOp "+" [EId "a" 8 false false; EId "b" 8 false false]) /\
                          simp 10 (EOp "+" [EId "a" 8 false false; EId "b" 8 false false]) = Ok (EOp "+" [EId "a" 8 false false; EId "b" 8 false false]).
 Proof. vm_compute. split; reflexivity. Qed.
+(** non-vacuity of the idempotence theorem: a well-formed tree on which flattening, folding, cancellation and a shift rule fire,
+    under a predicate that determines is_term *)
+Example C13_idempotent_nonvacuous :
+  let Q := fun (n : string) (w : Z) (r t : bool) => Bool.eqb t false in
+  let a := EId "a" 32 true false in let b := EId "b" 32 true false in
+  let e := EOp "+" [EOp "+" [b; EInt false 32 3]; EOp ">>" [EOp "&" [a; EInt false 32 255]; EInt false 32 8]; EOp "-" [b]; a] in
+  (forall n w r t t', Q n w r t = true -> Q n w r t' = true -> t = t') /\ wf Q e = true /\ simp 20 e = Ok (EOp "+" [a; EInt false 32 3]).
+Proof. split; [intros n w r t t' H1 H2; apply eqb_prop in H1; apply eqb_prop in H2; congruence|]. vm_compute. split; reflexivity. Qed.
